@@ -45,21 +45,22 @@ const (
 type O struct {
 	Kind   Kind
 	Type   types.Type
-	Const  constant.Value // KConst
-	Param  *ssa.Parameter // KParam
-	FV     *ssa.FreeVar   // KParam (free variable)
-	Global *ssa.Global    // KGlobal
-	Field  *types.Var     // KField
-	Op     token.Token    // KBin, KUn
-	Callee *ssa.Function  // KCall (nil for dynamic / builtin)
-	Name   string         // KCall: display name; KUnknown: reason
-	Index  int            // KCall result index, KLookup component
-	Args   []*O           // operands: KField/KElem/KConv/KUn: [X]; KElem: [X, idx]; KBin: [X,Y]; KCall: args; KPhi: alternatives
-	Val    ssa.Value      // the SSA value this node was built from (identity for KAlloc/KUnknown/KRange*)
-	Ctx    string         // context id for KAlloc / loop-instance identity
-	Lit    *ssa.Alloc     // KStructLit: the local the literal was built in
+	Const  constant.Value  // KConst
+	Param  *ssa.Parameter  // KParam
+	FV     *ssa.FreeVar    // KParam (free variable)
+	Global *ssa.Global     // KGlobal
+	Field  *types.Var      // KField
+	Op     token.Token     // KBin, KUn
+	Callee *ssa.Function   // KCall (nil for dynamic / builtin)
+	Name   string          // KCall: display name; KUnknown: reason
+	Index  int             // KCall result index, KLookup component
+	Args   []*O            // operands: KField/KElem/KConv/KUn: [X]; KElem: [X, idx]; KBin: [X,Y]; KCall: args; KPhi: alternatives
+	Val    ssa.Value       // the SSA value this node was built from (identity for KAlloc/KUnknown/KRange*)
+	Ctx    string          // context id for KAlloc / loop-instance identity
+	Lit    *ssa.Alloc      // KStructLit: the local the literal was built in
 	LitAt  ssa.Instruction // KStructLit: the whole-value load
-	LitFr  *Frame         // KStructLit: the frame it was built in
+	LitFr  *Frame          // KStructLit: the frame it was built in
+	Fields map[string]*O   // KStructLit: known field origins (a row of a constant table), instead of Lit
 }
 
 func (o *O) String() string {
@@ -277,6 +278,11 @@ func (r *Resolver) of(v ssa.Value, fr *Frame, at ssa.Instruction) *O {
 	case *ssa.Field:
 		st := x.X.Type().Underlying().(*types.Struct)
 		base := r.Of(x.X, fr, at)
+		if base.Kind == KStructLit && base.Fields != nil {
+			if o, ok := base.Fields[st.Field(x.Field).Name()]; ok && o != nil {
+				return o
+			}
+		}
 		if base.Kind == KStructLit && base.Lit != nil {
 			// the field of a literal built in a local (possibly in a caller and handed down by value): the store that
 			// reaches the whole-value load, resolved where the literal was built
@@ -756,6 +762,13 @@ func (r *Resolver) reaching(al *ssa.Alloc, path []int, ld ssa.Instruction, fr *F
 	}
 	o := r.Of(best.st.Val, fr, best.st)
 	if len(path) == 1 && best.field == -1 {
+		if o.Kind == KStructLit && o.Fields != nil {
+			st := al.Type().Underlying().(*types.Pointer).Elem().Underlying().(*types.Struct)
+			if fo, ok := o.Fields[st.Field(path[0]).Name()]; ok && fo != nil {
+				return fo
+			}
+			return nil
+		}
 		if o.Kind == KStructLit && o.Lit != nil {
 			// the whole value is a literal built elsewhere (a struct handed down by value and spilled here)
 			if fo := r.reaching(o.Lit, path, o.LitAt, o.LitFr); fo != nil {
